@@ -169,8 +169,8 @@ open PdfVerif PdfVerif.Paths PdfVerif.PathSpec PdfVerif.Gen.PathsGen
 
 /-- The device colour spaces have their ISO component counts in the page's space map. -/
 def devOk (cs : SpaceMap) : Prop :=
-  cs.lookup "DeviceGray" = some ⟨1, false⟩ ∧ cs.lookup "DeviceRGB" = some ⟨3, false⟩ ∧
-  cs.lookup "DeviceCMYK" = some ⟨4, false⟩
+  cs.lookup "DeviceGray" = some ⟨"DeviceGray", 1⟩ ∧ cs.lookup "DeviceRGB" = some ⟨"DeviceRGB", 3⟩ ∧
+  cs.lookup "DeviceCMYK" = some ⟨"DeviceCMYK", 4⟩
 
 structure Sim (cs : SpaceMap) (st : IState) (ss : SState) : Prop where
   ctm : st.ctm = ss.g.ctm
@@ -179,7 +179,7 @@ structure Sim (cs : SpaceMap) (st : IState) (ss : SState) : Prop where
   path : st.curpath = enc ss.path
   ok : okFrom (0, 0) false ss.path
   out : (st.out.filter hasSeg).map eraseRectPts = ss.out.map eraseRectPts
-  csmap : ∀ name, csLookup st.csmap name = (cs.lookup name).map (·.n)
+  csmap : st.csmap = cs
 
 /-- Operations the proved simulation covers: no pattern colour (open finding), and `sc`-family
 operand counts 1, 3 or 4 (pdfminer ignores other counts). -/
@@ -414,11 +414,11 @@ theorem gsOf_setSp (g : SGState) (b : Bool) (sp : Space) :
   cases b <;> simp [setSp, gsOf]
 
 theorem sim_device (cs : SpaceMap) (st : IState) (ss : SState) (hs : Sim cs st ss) (b : Bool) (xs : List Rat)
-    (name : String) (n : Nat) (hcs : cs.lookup name = some ⟨n, false⟩) :
+    (name : String) (sp : Space) (hcs : cs.lookup name = some sp) :
     Sim cs (doDeviceColour st b name (xs.map Operand.num))
-      { ss with g := setSp (setCol ss.g b (.comps xs)) b ⟨n, false⟩ } := by
-  have hl : csLookup st.csmap name = some n := by rw [hs.csmap, hcs]; rfl
-  have e : doDeviceColour st b name (xs.map Operand.num) = setSpace (setColour st b xs) b n := by
+      { ss with g := setSp (setCol ss.g b (.comps xs)) b sp } := by
+  have hl : csLookup st.csmap name = some sp := by rw [hs.csmap]; exact hcs
+  have e : doDeviceColour st b name (xs.map Operand.num) = setSpace (setColour st b xs) b sp.n := by
     simp [doDeviceColour, allNums_nums, hl]
   rw [e]
   cases b
@@ -429,7 +429,7 @@ theorem sim_device (cs : SpaceMap) (st : IState) (ss : SState) (hs : Sim cs st s
 
 theorem sim_gray (cs : SpaceMap) (hdev : devOk cs) (st : IState) (ss : SState) (hs : Sim cs st ss) (b : Bool)
     (x : Rat) : ∃ st', execute (tokens (.gray b x)) st = .ok st' ∧ Sim cs st' (stepS cs ss (.gray b x)) := by
-  refine ⟨doDeviceColour st b "DeviceGray" ([x].map Operand.num), ?_, sim_device cs st ss hs b [x] _ 1 hdev.1⟩
+  refine ⟨doDeviceColour st b "DeviceGray" ([x].map Operand.num), ?_, sim_device cs st ss hs b [x] _ _ hdev.1⟩
   simp only [tokens, nums_eq, exec_operands, exec_single]
   cases b
   · simp only [Bool.false_eq_true, if_false]
@@ -440,7 +440,7 @@ theorem sim_gray (cs : SpaceMap) (hdev : devOk cs) (st : IState) (ss : SState) (
 theorem sim_rgb (cs : SpaceMap) (hdev : devOk cs) (st : IState) (ss : SState) (hs : Sim cs st ss) (b : Bool)
     (r g bl : Rat) : ∃ st', execute (tokens (.rgb b r g bl)) st = .ok st' ∧ Sim cs st' (stepS cs ss (.rgb b r g bl)) := by
   refine ⟨doDeviceColour st b "DeviceRGB" ([r, g, bl].map Operand.num), ?_,
-    sim_device cs st ss hs b [r, g, bl] _ 3 hdev.2.1⟩
+    sim_device cs st ss hs b [r, g, bl] _ _ hdev.2.1⟩
   simp only [tokens, nums_eq, exec_operands, exec_single]
   cases b
   · simp only [Bool.false_eq_true, if_false]
@@ -451,7 +451,7 @@ theorem sim_rgb (cs : SpaceMap) (hdev : devOk cs) (st : IState) (ss : SState) (h
 theorem sim_cmyk (cs : SpaceMap) (hdev : devOk cs) (st : IState) (ss : SState) (hs : Sim cs st ss) (b : Bool)
     (c m y k : Rat) : ∃ st', execute (tokens (.cmyk b c m y k)) st = .ok st' ∧ Sim cs st' (stepS cs ss (.cmyk b c m y k)) := by
   refine ⟨doDeviceColour st b "DeviceCMYK" ([c, m, y, k].map Operand.num), ?_,
-    sim_device cs st ss hs b [c, m, y, k] _ 4 hdev.2.2⟩
+    sim_device cs st ss hs b [c, m, y, k] _ _ hdev.2.2⟩
   simp only [tokens, nums_eq, exec_operands, exec_single]
   cases b
   · simp only [Bool.false_eq_true, if_false]
@@ -459,13 +459,32 @@ theorem sim_cmyk (cs : SpaceMap) (hdev : devOk cs) (st : IState) (ss : SState) (
   · simp only [if_true]
     rw [doOp_call .K 4 (by decide) (by decide) st _ (by simp)]; rfl
 
+/-- The implementation's `_initial_color` is ISO 32000-1 Table 74. -/
+theorem initialColour_eq_iso (sp : Space) : initialColour sp = isoInit sp := by
+  obtain ⟨name, n⟩ := sp
+  unfold initialColour isoInit
+  by_cases h0 : n = 0
+  · subst h0; simp
+  · have h1 : ¬ n < 1 := by omega
+    by_cases hp : name = "Pattern"
+    · subst hp; simp [h0]
+    · by_cases hc : name = "DeviceCMYK"
+      · subst hc; simp [h0]
+      · by_cases hs : name = "Separation"
+        · subst hs; simp [h0]
+        · by_cases hd : name = "DeviceN"
+          · subst hd; simp [h0]
+          · simp only [h0, if_false, beq_iff_eq, hp, hc, hs, hd, Bool.false_or, h1, decide_false,
+              Bool.or_self, Bool.false_eq_true, or_self]
+            split <;> simp_all
+
 theorem sim_cs (cs : SpaceMap) (st : IState) (ss : SState) (hs : Sim cs st ss) (b : Bool) (name : String)
     (hok : opOk cs ss (.cs b name) = true) :
     ∃ st', execute (tokens (.cs b name)) st = .ok st' ∧ Sim cs st' (stepS cs ss (.cs b name)) := by
   simp only [opOk] at hok
   obtain ⟨sp, hsp⟩ := Option.isSome_iff_exists.1 hok
-  have hl : csLookup st.csmap name = some sp.n := by rw [hs.csmap, hsp]; rfl
-  refine ⟨setSpace st b sp.n, ?_, ?_⟩
+  have hl : csLookup st.csmap name = some sp := by rw [hs.csmap]; exact hsp
+  refine ⟨doSelectSpace st b sp, ?_, ?_⟩
   · have : tokens (.cs b name) = [Operand.name name].map Tok.operand ++ [.op (if b then .CS else .cs)] := rfl
     rw [this, exec_operands, exec_single]
     cases b
@@ -477,9 +496,11 @@ theorem sim_cs (cs : SpaceMap) (st : IState) (ss : SState) (hs : Sim cs st ss) (
       simp [call, hl]
   · simp only [stepS, hsp]
     cases b
-    · exact { ctm := hs.ctm, gs := by simp [setSpace, setSp, gsOf, hs.gs],
+    · exact { ctm := hs.ctm,
+              gs := by simp [doSelectSpace, setColourOpt, setSpace, setSp, gsOf, hs.gs, initialColour_eq_iso],
               gstack := hs.gstack, path := hs.path, ok := hs.ok, out := hs.out, csmap := hs.csmap }
-    · exact { ctm := hs.ctm, gs := by simp [setSpace, setSp, gsOf, hs.gs],
+    · exact { ctm := hs.ctm,
+              gs := by simp [doSelectSpace, setColourOpt, setSpace, setSp, gsOf, hs.gs, initialColour_eq_iso],
               gstack := hs.gstack, path := hs.path, ok := hs.ok, out := hs.out, csmap := hs.csmap }
 
 theorem setColourN_ok (st : IState) (b : Bool) (xs : List Rat)
@@ -613,73 +634,9 @@ open PdfVerif PdfVerif.Paths PdfVerif.PathSpec PdfVerif.Gen.PathsGen
 
 /-! ### the initial states -/
 
-def proj (e : String × Space) : String × Nat := (e.1, e.2.n)
-
-theorem lookup_proj (m : SpaceMap) (name : String) :
-    (m.map proj).lookup name = (m.lookup name).map (·.n) := by
-  induction m with
-  | nil => rfl
-  | cons e rest ih =>
-    obtain ⟨k, sp⟩ := e
-    simp only [List.map_cons, proj, List.lookup_cons]
-    cases name == k <;> simp [ih, proj]
-
-theorem csInsert_proj (m : SpaceMap) (name : String) (sp : Space) :
-    csInsert (m.map proj) name sp.n = (insertSpace m name sp).map proj := by
-  unfold csInsert insertSpace
-  rw [lookup_proj]
-  cases h : m.lookup name with
-  | none => simp [proj]
-  | some v =>
-    simp only [Option.map_some, Option.isSome_some, if_true, List.map_map]
-    apply List.map_congr_left
-    intro e _
-    simp only [Function.comp, proj]
-    by_cases he : (e.1 == name) = true <;> simp [he]
-
-theorem fold_proj (res : List (String × CsSpec)) (m : SpaceMap) :
-    res.foldl (fun m (e : String × CsSpec) =>
-      match e.2 with
-      | .icc n => csInsert m e.1 n
-      | .devn n => csInsert m e.1 n
-      | .named base =>
-        match PREDEFINED_COLORSPACE.lookup base with
-        | some n => csInsert m e.1 n
-        | none => m) (m.map proj) =
-    (res.foldl (fun m (e : String × CsSpec) =>
-      match e.2 with
-      | .icc n => insertSpace m e.1 ⟨n, false⟩
-      | .devn n => insertSpace m e.1 ⟨n, false⟩
-      | .named base =>
-        match PREDEFINED_COLORSPACE.lookup base with
-        | some n => insertSpace m e.1 (spaceOf base n)
-        | none => m) m).map proj := by
-  induction res generalizing m with
-  | nil => rfl
-  | cons e rest ih =>
-    simp only [List.foldl_cons]
-    obtain ⟨name, spec⟩ := e
-    cases spec with
-    | icc n => simp only; rw [← ih]; congr 1; exact csInsert_proj m name ⟨n, false⟩
-    | devn n => simp only; rw [← ih]; congr 1; exact csInsert_proj m name ⟨n, false⟩
-    | named base =>
-      simp only
-      cases PREDEFINED_COLORSPACE.lookup base with
-      | none => simp only; exact ih m
-      | some n => simp only; rw [← ih]; congr 1; exact csInsert_proj m name (spaceOf base n)
-
-theorem initCsmap_proj (res : List (String × CsSpec)) : initCsmap res = (initSpaces res).map proj := by
-  unfold initCsmap initSpaces
-  have h0 : PREDEFINED_COLORSPACE =
-      (PREDEFINED_COLORSPACE.map (fun e => (e.1, spaceOf e.1 e.2))).map proj := by
-    simp [List.map_map, Function.comp_def, proj, spaceOf]
-  have := fold_proj res (PREDEFINED_COLORSPACE.map (fun e => (e.1, spaceOf e.1 e.2)))
-  rw [← h0] at this
-  exact this
-
-theorem insertSpace_head (k0 : String) (sp0 : Space) (rest0 : SpaceMap) (name : String) (sp : Space) :
-    ∃ sp' rest', insertSpace ((k0, sp0) :: rest0) name sp = (k0, sp') :: rest' := by
-  unfold insertSpace
+theorem csInsert_head (k0 : String) (sp0 : CSpace) (rest0 : List (String × CSpace)) (name : String) (sp : CSpace) :
+    ∃ sp' rest', csInsert ((k0, sp0) :: rest0) name sp = (k0, sp') :: rest' := by
+  unfold csInsert
   split
   · simp only [List.map_cons]
     by_cases he : (k0 == name) = true
@@ -693,10 +650,10 @@ theorem insertSpace_head (k0 : String) (sp0 : Space) (rest0 : SpaceMap) (name : 
 
 theorem initSpaces_head (res : List (String × CsSpec)) :
     ∃ sp rest, initSpaces res = ("DeviceGray", sp) :: rest := by
-  unfold initSpaces
-  have h0 : ∃ sp rest, PREDEFINED_COLORSPACE.map (fun e => (e.1, spaceOf e.1 e.2)) = ("DeviceGray", sp) :: rest :=
-    ⟨_, _, rfl⟩
-  generalize PREDEFINED_COLORSPACE.map (fun e => (e.1, spaceOf e.1 e.2)) = m at h0
+  unfold initSpaces initCsmap
+  have h0 : ∃ sp rest, PREDEFINED_COLORSPACE.map (fun e => (e.1, (⟨e.1, e.2⟩ : CSpace))) =
+      ("DeviceGray", sp) :: rest := ⟨_, _, rfl⟩
+  generalize PREDEFINED_COLORSPACE.map (fun e => (e.1, (⟨e.1, e.2⟩ : CSpace))) = m at h0
   induction res generalizing m with
   | nil => exact h0
   | cons e rest ih =>
@@ -705,31 +662,28 @@ theorem initSpaces_head (res : List (String × CsSpec)) :
     obtain ⟨sp, r, rfl⟩ := h0
     obtain ⟨name, spec⟩ := e
     cases spec with
-    | icc n => exact insertSpace_head _ _ _ _ _
-    | devn n => exact insertSpace_head _ _ _ _ _
+    | icc n => exact csInsert_head _ _ _ _ _
+    | devn n => exact csInsert_head _ _ _ _ _
     | named base =>
       simp only
       cases PREDEFINED_COLORSPACE.lookup base with
       | none => exact ⟨_, _, rfl⟩
-      | some n => exact insertSpace_head _ _ _ _ _
+      | some n => exact csInsert_head _ _ _ _ _
 
 /-- The interpreter's initial state simulates the specification's initial state. -/
 theorem sim_init (ctm : Matrix) (res : List (String × CsSpec)) (hdev : devOk (initSpaces res)) :
     Sim (initSpaces res) (initState ctm res) (initS ctm) := by
   obtain ⟨sp, rest, hh⟩ := initSpaces_head res
-  have hsp : sp = ⟨1, false⟩ := by
+  have hsp : sp = ⟨"DeviceGray", 1⟩ := by
     have := hdev.1
     rw [hh] at this
     simpa [List.lookup_cons] using this
-  have hc : initCsmap res = ("DeviceGray", 1) :: rest.map proj := by
-    rw [initCsmap_proj, hh, hsp]; rfl
+  have hc : initCsmap res = ("DeviceGray", ⟨"DeviceGray", 1⟩) :: rest := by
+    have := hh; rw [hsp] at this; exact this
   exact { ctm := rfl,
           gs := by simp [initState, hc, initS, gsOf],
           gstack := rfl, path := rfl, ok := trivial, out := rfl,
-          csmap := by
-            intro name
-            simp only [initState, csLookup]
-            rw [initCsmap_proj, lookup_proj] }
+          csmap := rfl }
 
 end PdfVerif.PathLemmas
 
